@@ -252,7 +252,7 @@ func intdataMain(mode string, a args) {
 					l := r.Intn(5)
 					as := make([]int, l)
 					for i := range as {
-						as[i] = r.Intn(dom)
+						as[i] = (r.Intn(dom) - 2)
 						if i > 0 && r.Intn(3) == 0 {
 							as[i] = as[i-1] // duplicates leave spare capacity
 						}
@@ -260,7 +260,7 @@ func intdataMain(mode string, a args) {
 					op = idOp{Op: "NewIntSet", Args: as}
 				case x < 4:
 					if i := pick(true); i > 0 {
-						op = idOp{Op: "Insert", A: i, Args: []int{r.Intn(dom)}}
+						op = idOp{Op: "Insert", A: i, Args: []int{(r.Intn(dom) - 2)}}
 						hot = i
 					}
 				case x < 6:
@@ -274,7 +274,7 @@ func intdataMain(mode string, a args) {
 					seen := map[int]bool{}
 					var as []int
 					for i := 0; i < l; i++ {
-						k := r.Intn(dom)
+						k := (r.Intn(dom) - 2)
 						if !seen[k] {
 							seen[k] = true
 						}
@@ -285,7 +285,7 @@ func intdataMain(mode string, a args) {
 					op = idOp{Op: "NewIntMap", Args: as}
 				case x < 9:
 					if i := pick(false); i > 0 {
-						op = idOp{Op: "Inc", A: i, Args: []int{r.Intn(dom)}}
+						op = idOp{Op: "Inc", A: i, Args: []int{(r.Intn(dom) - 2)}}
 					}
 				default:
 					i, j := pick(false), pick(true)
